@@ -18,6 +18,8 @@ def run(ctx):
                 for pat in ((0, 3) if main else (3,)):
                     jobs.append((exe, [a, mode, pat, 1 if (ctx.thorough and main) else 0], be))
     common.parallel(lambda j: common.run_harness(ctx, j[0], j[1], label=j[2]), jobs)
+    if ctx.thorough:
+        common.huge_lengths(ctx, ["hash:0", "hash:1", "xof-in:0", "xof-in:1", "xof-out:0", "xof-out:1"])
     ctx.assumptions += [
         "reference: generic IV 00 40 0c {00|04} || outbits32 followed by the real 12-round permutation, so every pre-computed IV table of every backend is checked against the generic construction",
         "cXOF as documented in doc/cxof.dox; function names are NUL-free C strings",
